@@ -17,6 +17,7 @@ pub const SITE_BEFORE_LOAD: u32 = 0;
 pub const SITE_BEFORE_STORE: u32 = 1;
 pub const SITE_AFTER_STORE: u32 = 2;
 pub const SITE_AFTER_LOAD: u32 = 3;
+pub const SITE_TICK: u32 = 4;
 pub const FEATURE_SSE2: u32 = 0;
 pub const FEATURE_AVX2: u32 = 1;
 pub const BACKEND_FALLBACK: usize = 0;
@@ -126,6 +127,7 @@ pub struct Stats {
     pub sched_steps: u64,
     pub context_switches: u64,
     pub seam_events: u64,
+    pub tick_preemptions: u64,
     pub ticks: u64,
     pub detect_runs: u64,
     pub stale_reads_injected: u64,
@@ -158,7 +160,7 @@ impl Stats {
     pub fn add(&mut self, o: &Stats) {
         macro_rules! acc { ($($f:ident),*) => { $( self.$f += o.$f; )* } }
         acc!(
-            episodes, ops, ops_with_match, inner_evals, sched_steps, context_switches, seam_events, ticks,
+            episodes, ops, ops_with_match, inner_evals, sched_steps, context_switches, seam_events, tick_preemptions, ticks,
             detect_runs, stale_reads_injected, stale_reads_eligible, forced_inert, needle_kills,
             sends, shares, recvs, alloc_positive_controls, lib_panics_documented,
             lib_panics_other, place_left, place_right, place_mid, notes_model_mismatch,
@@ -264,6 +266,12 @@ impl World {
     /// dispatch-slot invariant: each registered slot holds its detector or
     /// the routine the simulated CPU selects, never anything else
     fn check_slots(&self) {
+        if cfg!(miri) {
+            // Miri deliberately gives the same function different addresses
+            // at different casts, so pointer identity says nothing there;
+            // the backend-entered events (EV_RAN) carry the invariant instead
+            return;
+        }
         let known = *self.known.lock().unwrap();
         let exp = self.expected_backend();
         for slot in 0..SLOTS {
@@ -312,6 +320,8 @@ pub struct TaskCtx {
     /// backends entered during the current op (bit per backend)
     pub ran: u8,
     pub in_lib: bool,
+    /// ticks until this task is next preempted inside a search loop
+    pub tick_countdown: u32,
 }
 
 impl TaskCtx {
@@ -326,6 +336,7 @@ impl TaskCtx {
             inert_fired: false,
             ran: 0,
             in_lib: false,
+            tick_countdown: 0,
         }
     }
 }
@@ -384,6 +395,38 @@ fn hook_seam_inner(site: u32, slot: usize) {
         Some(w) => w,
         None => return,
     };
+    if site == SITE_TICK {
+        // preemption inside a search loop, on average every `tick_preempt` ticks
+        if w.mode != RtMode::Shuttle || w.env.tick_preempt == 0 {
+            return;
+        }
+        let due = with_ctx(|c| {
+            if c.tick_countdown > 0 {
+                c.tick_countdown -= 1;
+                false
+            } else {
+                true
+            }
+        })
+        .unwrap_or(false);
+        if !due {
+            return;
+        }
+        let mean = w.env.tick_preempt as u32;
+        let next = w.choices.lock().unwrap().choose(2 * mean + 1, None);
+        with_ctx(|c| c.tick_countdown = next);
+        {
+            let tid = with_ctx(|c| c.tid).unwrap_or(99);
+            let mut t = w.trace.lock().unwrap();
+            t.u8(tid as u8);
+            t.u8(site as u8);
+        }
+        w.stats.lock().unwrap().tick_preemptions += 1;
+        let me = cur_ctx();
+        crate::rt::yield_now();
+        set_ctx(me);
+        return;
+    }
     let tid = with_ctx(|c| c.tid).unwrap_or(99);
     // trace: (task, site, slot, value class)
     {
